@@ -1040,6 +1040,12 @@ Hsetlength(int32 aid, int32 length)
     if (access_rec->new_elem != TRUE)
         HGOTO_ERROR(DFE_ARGS, FAIL);
 
+    /* giving the element room in the file is a write: not through an access
+       element that was started for reading (a descriptor without data, left by
+       a writer that never wrote, counts as new for a reader as well) */
+    if (!(access_rec->access & DFACC_WRITE))
+        HGOTO_ERROR(DFE_DENIED, FAIL);
+
     file_rec = HAatom_object(access_rec->file_id);
     if (BADFREC(file_rec))
         HGOTO_ERROR(DFE_ARGS, FAIL);
